@@ -306,19 +306,25 @@ def selectMech (authmech : Option Bytes) (srv : List Bytes) : Option Bytes :=
     | none => supportedMechs
   mechList.find? (fun m => decide (m ∈ srv))
 
+/-- the tail of `__authenticate` once a mechanism has (or has not) been selected -/
+def finishAuth (c : Client) (sel : Option Bytes) (login password authz : Bytes) : Res Bool :=
+  match sel with
+  | none => (.ok false, setErrmsg c (sb "No suitable mechanism found"))
+  | some m =>
+    match authWith c m login password authz with
+    | (.error e, c1) => (.error e, c1)
+    | (.ok true, c1) => (.ok true, { c1 with authenticated := true })
+    | (.ok false, c1) => (.ok false, c1)
+
 /-- `__authenticate` -/
 def authenticate (c : Client) (login password authz : Bytes) (authmech : Option Bytes) : Res Bool :=
   match capGet c (sb "SASL") with
   | none => (.error .error, c)
-  | some v =>
-    let srv := splitWs (v.getD [])
-    match selectMech authmech srv with
-    | none => (.ok false, setErrmsg c (sb "No suitable mechanism found"))
-    | some m =>
-      match authWith c m login password authz with
-      | (.error e, c1) => (.error e, c1)
-      | (.ok true, c1) => (.ok true, { c1 with authenticated := true })
-      | (.ok false, c1) => (.ok false, c1)
+  | some v => finishAuth c (selectMech authmech (splitWs (v.getD []))) login password authz
+
+/-- the client right after a successful handshake: wrapped socket, buffer and capabilities cleared -/
+def tlsWrapped (c : Client) : Client :=
+  { c with tls := true, r := { c.r with buf := [], net := c.r.net.release }, caps := [] }
 
 /-- `__starttls` -/
 def starttls (c : Client) (env : ConnEnv) : Res Bool :=
@@ -328,25 +334,32 @@ def starttls (c : Client) (env : ConnEnv) : Res Bool :=
   | (.ok rep, c1) =>
     if rep.code != some .OK then (.ok false, c1) else
     if !env.tlsOk then (.error .error, c1) else
-    let c2 := { c1 with tls := true, r := { c1.r with buf := [], net := c1.r.net.release }, caps := [] }
-    match getCapabilities c2 with
+    match getCapabilities (tlsWrapped c1) with
     | (.error e, c3) => (.error e, c3)
     | (.ok _, c3) => (.ok true, c3)
+
+/-- the state `connect` starts from: flags, capabilities and buffer cleared, a fresh socket -/
+def freshConn (c : Client) (net : Net) : Client :=
+  { c with authenticated := false, caps := [], connected := true, tls := false, writes := [],
+           r := { c.r with buf := [], net := net } }
+
+/-- STARTTLS if asked for, else nothing -/
+def maybeTls (c : Client) (env : ConnEnv) (useTls : Bool) : Res Bool :=
+  if useTls then starttls c env else (.ok true, c)
 
 /-- `connect(login, password, authz_id, starttls, authmech)` on a fresh socket fed by `net` -/
 def connect (c : Client) (env : ConnEnv) (net : Net) (login password authz : Bytes)
     (useTls : Bool) (authmech : Option Bytes) : Res Bool :=
-  let c0 : Client := { c with authenticated := false, caps := [], r := { c.r with buf := [] } }
-  if !env.tcpOk then (.error .error, c0) else
-  let c1 : Client := { c0 with connected := true, tls := false, writes := [], r := { c0.r with net := net } }
-  match getCapabilities c1 with
-  | (.error e, c2) => (.error e, c2)
-  | (.ok false, c2) => (.error .error, c2)
-  | (.ok true, c2) =>
-    let afterTls : Res Bool := if useTls then starttls c2 env else (.ok true, c2)
-    match afterTls with
-    | (.error e, c3) => (.error e, c3)
-    | (.ok false, c3) => (.ok false, c3)
-    | (.ok true, c3) => authenticate c3 login password authz authmech
+  if !env.tcpOk then
+    (.error .error, { c with authenticated := false, caps := [], writes := [], r := { c.r with buf := [] } })
+  else
+    match getCapabilities (freshConn c net) with
+    | (.error e, c2) => (.error e, c2)
+    | (.ok false, c2) => (.error .error, c2)
+    | (.ok true, c2) =>
+      match maybeTls c2 env useTls with
+      | (.error e, c3) => (.error e, c3)
+      | (.ok false, c3) => (.ok false, c3)
+      | (.ok true, c3) => authenticate c3 login password authz authmech
 
 end Client
